@@ -58,6 +58,18 @@ CHECKS = {
                 text="Initial-condition (ODE tuple, PDE function over cartesian and paired batches), normalisation (sample counts, volumes, non-constant u, sliced solution, batch times) and observation terms "
                      "(slices, weights, observed parameters entering u) are compared exactly with their definitions.",
                 note="polynomial networks; normalisation for a scalar (sliced) solution", ref="3.6 C05"),
+    "C06": dict(cat="model_checking", tech="TLC exhaustive enumeration of derivative specifications (MC_Masks.tla) + exact gradient conformance (Trace_Func.tla)",
+                text="Every assignment of {selected, not selected} to every (term, group) pair is enumerated (512 / 4096 / 32768 masks; quick: all ODE masks + a covering subset); the gradient of the total loss under each "
+                     "mask must equal the exact sum of the selected per-term gradients, term values must not depend on the mask; string forms and the default are replayed too.",
+                note="u = V*k1 + k2 so that every pair has a non-zero gradient; per-term reference gradients measured with everything selected", ref="3.6 C06"),
+    "C12": dict(cat="model_checking", tech="TLC enumeration of batched-key subsets and heterogeneity maps (MC_Loss.tla) + exact conformance against LossSemantics!ParamsRow/HetParams (Trace_Func.tla)",
+                text="Every subset of batched keys of a 3-key parameter set x shapes x loss kinds x heterogeneity maps x observed parameters, with tagged parameter tables; every term is compared with the oracle "
+                     "in which sample i sees row i of the batched keys and the caller's value of the others, and heterogeneous parameters are replaced inside the equation only.",
+                note="polynomial networks/residuals/heterogeneity maps; exact under x64", ref="3.6 C12"),
+    "C13": dict(cat="model_checking", tech="TLC enumeration of system structures (MC_Loss.tla) + exact conformance of SystemLossODE/SystemLossPDE against LossSemantics!SysTerms (Trace_Func.tla)",
+                text="1..3 equations x 1..3 unknowns x key naming x ODE/stationary/non-stationary x scalar/dict weights x per-unknown initial/boundary/observation specifications x parameter batch; "
+                     "equations asymmetric in t and x; the 1x1 system = plain loss is a lemma of the oracle checked on the records.",
+                note="polynomial one-output networks and equations returning shape (1,) residuals; exact under x64", ref="3.6 C13"),
 }
 NA = {}
 
